@@ -22,6 +22,10 @@ from wormhole._rlcompleter import CodeInputter
 from twisted.internet.defer import Deferred
 from wormhole._wordlist import PGPWordList
 from wormhole.journal import ImmediateJournal
+from wormhole import xfer_util
+from twisted.internet.task import Clock
+from twisted.python.failure import Failure
+from zope.interface import implementer
 
 from ..core import Result
 from ..fakes import hx
@@ -281,7 +285,10 @@ def legal_api(rng):
         ws = [rand_word(rng, i) for i in range(k)]
         typed = ""
         for i, w in enumerate(ws):
-            ops.append(["h", "wc", typed + w[:rng.randrange(0, len(w) + 1)]])
+            q = typed + w[:rng.randrange(0, len(w) + 1)]
+            ops.append(["h", "wc", q])
+            if rng.random() < 0.5:
+                ops.append(["h", "wc", case_variant(rng, typed + w[:rng.randrange(1, len(w) + 1)])])
             typed += w + "-"
         ops.append(["h", "choosewords", "-".join(ws)])
     # sprinkle extra (mostly illegal) calls
@@ -312,6 +319,28 @@ def rand_op(rng):
 
 
 RL_NPS = ["12", "123", "4", "47", "7", "9", "124"]
+
+
+def case_variant(rng, text):
+    """the same keys with shift / caps-lock / a keyboard's auto-capitalisation in play, plus a few non-ASCII
+    characters whose lower() is an ASCII letter or longer than one character"""
+    r = rng.random()
+    if r < 0.25:
+        return text.upper()
+    if r < 0.45:
+        return "-".join(w[:1].upper() + w[1:] for w in text.split("-"))
+    if r < 0.8:
+        cs = list(text)
+        idx = [i for i, ch in enumerate(cs) if ch.isalpha()]
+        for i in rng.sample(idx, min(len(idx), rng.choice([1, 1, 2, 3]))):
+            cs[i] = cs[i].upper()
+        return "".join(cs)
+    sub = {"k": "\u212a", "i": "\u0130", "s": "\u017f", "a": "\u00c0", "e": "\u00c9"}
+    cs = list(text)
+    idx = [i for i, ch in enumerate(cs) if ch in sub]
+    for i in rng.sample(idx, min(len(idx), 1)):
+        cs[i] = sub[cs[i]]
+    return "".join(cs)
 
 
 def rl_history(rng):
@@ -354,6 +383,9 @@ def rl_history(rng):
             ops.append(["rl", "tab", b_ + "-" + w1 + "-" + w2[:rng.randrange(0, len(w2) + 1)]])
         else:
             ops.append(["rl", "tab", b_ + "-" + rand_prefix(rng)])
+        if rng.random() < 0.4:
+            typed_words = rng.choice([w1[:rng.randrange(1, len(w1) + 1)], w1 + "-" + w2[:rng.randrange(1, len(w2) + 1)]])
+            ops.append(["rl", "tab", b_ + "-" + case_variant(rng, typed_words)])
         if rng.random() < 0.15:
             ops.append(rng.choice([["gotwl"], ["gotnp", listed], ["h", "wwa"], ["h", "wc", "a"]]))
     fin = rng.random()
@@ -423,6 +455,21 @@ def cases(rng, tier):
     ]
     for ops in corpus_rl:
         out.append(dict(kind="api", ops=ops))
+    corpus_case = [
+        [["input"], ["h", "choosenp", "4"], ["gotwl"], ["h", "wc", "Ar"], ["h", "wc", "AR"], ["h", "wc", "armistice-BA"],
+         ["h", "wc", "Armistice-ba"], ["h", "wc", "ARMISTICE-"], ["h", "wc", "\u212a"], ["h", "wc", "\u0130"], ["h", "wc", "aR"],
+         ["h", "wc", "ar"], ["h", "wc", "\u00c0r"], ["h", "wc", "armistice-\u212a"], ["h", "choosewords", "armistice-baboon"]],
+        [["input"], ["gotnp", ["4"]], ["rl", "tab", "4-Ar"], ["rl", "tab", "4-AR"], ["rl", "tab", "4-Armistice-ba"],
+         ["rl", "tab", "4-armistice-BA"], ["rl", "tab", "4-\u212a"], ["rl", "tab", "4-ar"], ["rl", "finish", "4-armistice-baboon"]],
+        [["input"], ["rl", "tab", "4-A"], ["rl", "tab", "4-ARMISTICE-"], ["rl", "finish", "4-Armistice-Baboon"]],
+    ]
+    for ops in corpus_case:
+        out.append(dict(kind="api", ops=ops))
+    for which in ("receive", "send"):
+        for code in [["none"], ["s", ""], ["s", "4-purple-sausages"], ["s", "4 purple sausages"], ["s", "four-purple"],
+                     ["s", "4\n-a"], ["s", " "], ["s", "-"], ["s", "0"], ["s", "-4-a"], ["s", "\u0663-x"],
+                     ["other", "0"], ["other", "False"], ["other", "b''"], ["other", "1"], ["other", "b'4-a'"], ["other", "0.0"]]:
+            out.append(dict(kind="xfer", which=which, code=code, np="7", data=[255, 0]))
     # generated ----------------------------------------------------------------
     for _ in range(30 * k):
         n = rng.choice([0, 1, 2, 2, 3, 4, 6, 9])
@@ -445,6 +492,11 @@ def cases(rng, tier):
         out.append(dict(kind="api", ops=legal_api(rng)))
     for _ in range(150 * k):
         out.append(dict(kind="api", ops=rl_history(rng)))
+    for _ in range(40 * k):
+        r = rng.random()
+        code = ["none"] if r < 0.25 else (["other", rng.choice(sorted(XFER_OTHER))] if r < 0.35 else ["s", rand_code(rng)])
+        out.append(dict(kind="xfer", which=rng.choice(["receive", "send"]), code=code,
+                        np=str(rng.randrange(1, 500)), data=rand_bytes(rng, 2)))
     for _ in range(60 * k):
         ops = [rand_op(rng) for _ in range(rng.randrange(1, 14))]
         r = rng.random()
@@ -484,6 +536,16 @@ def cases(rng, tier):
                                 ops.append(["rl", "tab", second])
                             ops.append(["rl", "finish", fin + "-armistice-baboon"])
                             out.append(dict(kind="api", ops=ops))
+        # every upper-/mixed-case 1- and 2-letter start of a first and of a second word, through the real Input + wordlist
+        import string as _st
+        qs = []
+        for a in _st.ascii_lowercase:
+            qs += [a.upper(), "armistice-" + a.upper()]
+            for b_ in "aeiouy":
+                qs += [a.upper() + b_, a + b_.upper(), "armistice-" + a.upper() + b_]
+        for i in range(0, len(qs), 12):
+            out.append(dict(kind="api", ops=[["input"], ["h", "choosenp", "4"], ["gotwl"]] + [["h", "wc", q] for q in qs[i:i + 12]]))
+            out.append(dict(kind="api", ops=[["input"]] + [["rl", "tab", "4-" + q] for q in qs[i:i + 12]]))
         # every 1- and 2-letter prefix, first and second word
         import string
         for a in string.ascii_lowercase:
@@ -546,6 +608,8 @@ def run_case(case):
         return Result([f"gc {nw} {hs(p)}"], [hl(got)], completion_violations(p, nw, got), tags)
     if k == "api":
         return run_api(case)
+    if k == "xfer":
+        return run_xfer(case)
     raise ValueError(k)
 
 
@@ -929,6 +993,146 @@ def run_api(case):
                         phase = "done"
     tags.append("route:" + str(accepted))
     return Result(lines, exp, viol, sorted(set(tags)))
+
+
+XFER_OTHER = {"0": 0, "False": False, "b''": b"", "1": 1, "b'4-a'": b"4-a", "0.0": 0.0}
+
+
+@implementer(_interfaces.IRendezvousConnector)
+class RecordingRC:
+    """stands in for the websocket: reports `connected` at start() and records every tx_*"""
+    instances = []
+
+    def __init__(self, *args, **kwargs):
+        self.sent = []
+        self.events = None
+        RecordingRC.instances.append(self)
+
+    def wire(self, boss, nameplate, mailbox, allocator, lister, terminator):
+        self._B, self._N, self._M = boss, nameplate, mailbox
+        self._A, self._L, self._T = allocator, lister, terminator
+
+    def set_trace(self, f):
+        pass
+
+    def start(self):
+        self._N.connected()
+        self._M.connected()
+        self._L.connected()
+        self._A.connected()
+
+    def stop(self):
+        self._T.stoppedRC()
+
+    def tx_claim(self, nameplate):
+        self.sent.append(("claim", nameplate))
+
+    def tx_open(self, mailbox):
+        self.sent.append(("open", mailbox))
+
+    def tx_add(self, phase, body):
+        self.sent.append(("add", phase))
+
+    def tx_release(self, nameplate):
+        self.sent.append(("release", nameplate))
+
+    def tx_close(self, mailbox, mood):
+        self.sent.append(("close", mailbox, mood))
+
+    def tx_list(self):
+        self.sent.append(("list",))
+
+    def tx_allocate(self):
+        self.sent.append(("allocate",))
+        if self.events is not None:
+            self.events.append("RC.tx_allocate")
+
+
+def run_xfer(case):
+    """xfer_util.send/receive on a real wormhole.create() client (all machines real) whose RendezvousConnector is
+    the recorder above; reactor = task.Clock"""
+    which, carg = case["which"], case["code"]
+    code = None if carg[0] == "none" else (carg[1] if carg[0] == "s" else XFER_OTHER[carg[1]])
+    events, reported, results, made = [], [], [], []
+    RecordingRC.instances[:] = []
+    clock = Clock()
+    orig_create = xfer_util.wormhole.create
+
+    def spy(obj, name, label):
+        orig = getattr(obj, name)
+
+        def f(*a):
+            events.append(label + ":" + hs(a[0]))
+            return orig(*a)
+        setattr(obj, name, f)
+
+    def create(*a, **kw):
+        w = orig_create(*a, **kw)
+        made.append(w)
+        b = w._boss
+        spy(b._N, "set_nameplate", "N.set_nameplate")
+        spy(b, "got_code", "B.got_code")
+        spy(b._K, "got_code", "K.got_code")
+        b._RC.events = events
+        return w
+
+    with mock.patch("wormhole._boss.RendezvousConnector", RecordingRC), mock.patch.object(xfer_util.wormhole, "create", create):
+        if which == "receive":
+            d = xfer_util.receive(clock, "example.org/verif", "ws://relay.invalid:4000/v1", code, on_code=reported.append)
+        else:
+            d = xfer_util.send(clock, "example.org/verif", "ws://relay.invalid:4000/v1", "payload", code, on_code=reported.append)
+    d.addBoth(results.append)
+    for _ in range(3):
+        clock.advance(0)
+    b = made[0]._boss
+    rc = b._RC
+
+    def outcome():
+        if results and isinstance(results[0], Failure):
+            return results[0].type.__name__
+        return "ok" if not results else "returned"
+
+    def state():
+        return (f"{'true' if b._did_start_code else 'false'} {automat_state(b._C)} {automat_state(b._I)} {automat_state(b._A)}")
+    arg_tok = "none" if carg[0] == "none" else ("other" if carg[0] == "other" else "s " + hs(carg[1]))
+    lines = [f"xfer {which} {arg_tok}"]
+    res = outcome()
+    exp = [f"{res} | {' '.join(events)} | {state()}"]
+    sent0 = list(rc.sent)
+    viol = []
+    tags = ["xfer:" + which, "xfer:" + carg[0] + "=" + res]
+    wellformed = isinstance(code, str) and not malformed_code(code)
+    if code is None:
+        if res != "ok" or sent0 != [("allocate",)] or reported:
+            viol.append(("allocate-refused", f"xfer_util.{which}(code=None): {res}; sent {sent0}; on_code {reported}"))
+        else:
+            mark = len(events)
+            data = list(case["data"])
+            r2, fd = with_urandom(data, lambda: _call(b._A.rx_allocated, case["np"]))
+            for _ in range(3):
+                clock.advance(0)
+            lines.append(f"rxalloc {hs(case['np'])} {hx(bytes(data))}")
+            exp.append(f"{r2} | {' '.join(events[mark:])} | {state()}")
+            want = case["np"] + "-" + "-".join((ODD if i % 2 == 0 else EVEN)[data[i]] for i in range(2))
+            if reported != [want]:
+                viol.append(("allocated-shape", f"xfer_util.{which}(code=None), nameplate {case['np']!r}, bytes {data}: on_code got {reported}, expected {want!r}"))
+            if fd.used != 2:
+                viol.append(("entropy-count", f"allocate_code() drew {fd.used} random bytes"))
+            if ("claim", case["np"]) not in rc.sent:
+                viol.append(("allocated-shape", f"allocated nameplate {case['np']!r} not claimed: {rc.sent}"))
+    elif wellformed:
+        if res != "ok" or ("allocate",) in sent0 or reported != [code] or ("claim", code.split("-")[0]) not in sent0:
+            viol.append(("first-start-refused", f"xfer_util.{which}(code={code!r}): {res}; sent {sent0}; on_code {reported}"))
+    else:
+        # a malformed code (a str that validate_code must refuse — "" included — or not a str at all)
+        if res in ("ok", "returned"):
+            viol.append(("malformed-accepted", f"xfer_util.{which}(code={code!r}) was not rejected; sent {sent0}; on_code told {reported}"))
+        elif isinstance(code, str) and res != "KeyFormatError":
+            viol.append(("malformed-accepted", f"xfer_util.{which}(code={code!r}) -> {res}"))
+        if sent0 or reported or events:
+            viol.append(("malformed-emitted", f"xfer_util.{which}(code={code!r}) -> {res} after sending {sent0} (on_code {reported}, calls {events})"))
+    d.addErrback(lambda f: None)
+    return Result(lines, exp, viol[:3], tags)
 
 
 def search(rng, seconds, seeds):
